@@ -144,4 +144,117 @@ theorem hit_iff {k : Path} (hk : Normal k) (q : Path) : hit k q = true ↔ Withi
     · exact Or.inl (Or.inl h)
     · exact Or.inr h
 
+/-! ## Keys and queries written with a trailing separator -/
+
+theorem dirOf_normal {p : Path} (h : Normal p) : dirOf p = p := by
+  simp [dirOf, normal_getLast h]
+
+theorem dirOf_snoc (d : Path) : dirOf (d ++ [sep]) = d := by
+  simp [dirOf]
+
+theorem eq_snoc_of_getLast {p : Path} (h : p.getLast? = some sep) : p = dirOf p ++ [sep] := by
+  rcases List.getLast?_eq_some_iff.mp h with ⟨ys, rfl⟩
+  rw [dirOf_snoc]
+
+theorem slashQ_getLast (u : Path) : (slashQ u).getLast? = some sep := by
+  simp [slashQ]
+
+theorem comps_snoc_sep (x : Path) : comps (x ++ [sep]) = comps x ++ [[]] := by
+  have := comps_append_sep x []
+  simpa [comps] using this
+
+/-- a component list without empty components is a prefix of `x ++ [[]]` only by being one of `x` -/
+theorem prefix_snoc_nil {l x : List Path} (hl : [] ∉ l) : l <+: x ++ [[]] ↔ l <+: x := by
+  rw [List.prefix_concat_iff]
+  constructor
+  · rintro (h | h)
+    · exfalso; apply hl; rw [h]; simp
+    · exact h
+  · exact Or.inr
+
+theorem within_snoc {d x : Path} (hd : Normal d) : Within d (x ++ [sep]) ↔ Within d x := by
+  unfold Within
+  rw [comps_snoc_sep]
+  exact prefix_snoc_nil hd
+
+/-- looking a `uses` entry up with one trailing separator asks the same question as the entry -/
+theorem within_slashQ {d u : Path} (hd : Normal d) : Within d (slashQ u) ↔ Within d u := by
+  unfold slashQ
+  by_cases h : u.getLast? = some sep
+  · rw [← eq_snoc_of_getLast h]
+  · rw [within_snoc hd]
+    simp [dirOf, h]
+
+theorem prefix_snoc_iff (d q : Path) (c : Nat) :
+    (d ++ [c]).isPrefixOf q = true ↔ d.isPrefixOf q = true ∧ q[d.length]? = some c := by
+  simp only [List.isPrefixOf_iff_prefix]
+  constructor
+  · rintro ⟨t, rfl⟩
+    exact ⟨⟨[c] ++ t, by simp⟩, by simp⟩
+  · rintro ⟨⟨t, rfl⟩, h⟩
+    cases t with
+    | nil => simp at h
+    | cons a t' =>
+      have : a = c := by simpa using h
+      subst this
+      exact ⟨t', by simp⟩
+
+/-- THE TIE for keys that may carry a trailing separator: the repaired search hits exactly when the
+query equals or lies inside the directory the key names - provided the query is not that directory
+written without the separator (which the `uses` lookup rules out by asking with `slashQ`). -/
+theorem hit_dir {k : Path} (hk : Normal (dirOf k)) {q : Path}
+    (hq : k.getLast? = some sep → q ≠ dirOf k) : hit k q = true ↔ Within (dirOf k) q := by
+  by_cases hs : k.getLast? = some sep
+  · have hkeq := eq_snoc_of_getLast hs
+    have hne := hq hs
+    generalize dirOf k = d at hk hkeq hne
+    subst hkeq
+    have hdne := normal_ne_nil hk
+    have hdl := normal_getLast hk
+    rw [within_iff_bytes]
+    have hh : hit (d ++ [sep]) q = (d ++ [sep]).isPrefixOf q := by
+      simp [hit, boundary]
+    rw [hh, prefix_snoc_iff]
+    constructor
+    · rintro ⟨hp, hb⟩; exact ⟨hp, Or.inr hb⟩
+    · rintro ⟨hp, hb⟩
+      refine ⟨hp, ?_⟩
+      rcases hb with hlen | hb
+      · exfalso
+        apply hne
+        rw [List.isPrefixOf_iff_prefix] at hp
+        obtain ⟨t, rfl⟩ := hp
+        have : t = [] := by
+          have : (d ++ t).length = d.length := hlen
+          simp at this; exact this
+        subst this; simp
+      · exact hb
+  · have : dirOf k = k := by simp [dirOf, hs]
+    rw [this] at hk ⊢
+    exact hit_iff hk q
+
+/-- the `uses` lookup as the code performs it -/
+theorem hit_slashQ {k : Path} (hk : Normal (dirOf k)) (u : Path) :
+    hit k (slashQ u) = true ↔ Within (dirOf k) u := by
+  rw [hit_dir hk, within_slashQ hk]
+  intro _ heq
+  have h1 := slashQ_getLast u
+  rw [heq] at h1
+  exact normal_getLast hk h1
+
+/-- the nesting lookup: the query is another target's path as written -/
+theorem hit_nest {k q : Path} (hk : Normal (dirOf k)) (hne : dirOf k ≠ dirOf q) :
+    hit k q = true ↔ Within (dirOf k) (dirOf q) := by
+  by_cases hs : q.getLast? = some sep
+  · have hqeq := eq_snoc_of_getLast hs
+    rw [hit_dir hk, hqeq, within_snoc hk, dirOf_snoc]
+    intro _ heq
+    apply normal_getLast hk
+    rw [← heq]; exact hs
+  · have hd : dirOf q = q := by simp [dirOf, hs]
+    rw [hd] at hne ⊢
+    rw [hit_dir hk]
+    intro _ heq
+    exact hne heq.symm
+
 end Monorail
